@@ -107,7 +107,7 @@ def main():
             'engine': 'gilint',
             'level_claimed': {'category': 'other', 'text': text, 'design_ref': 'DESIGN.md ' + ref},
             'level_note': note,
-            'technique': 'static analysis: ' + tech,
+            'technique': 'static analysis: ' + tech + '; rules are queries on gated effect summaries of the resolved functions (gsa.py / cgsa.py: helpers inlined, locals copy-propagated, conditions as formulas over canonical atoms, feasibility by case split - no execution, no solver), see DESIGN.md §3',
         })
     na = []
     for pid in ALL:
@@ -121,7 +121,7 @@ def main():
                   'baseline_off_cmd': 'cd /repo && /venv/bin/python -m pytest -ra -q -p no:cacheprovider --timeout=900 --continue-on-collection-errors',
                   'source_commits': [], 'add_only': True},
         'engines': [{'name': 'gilint', 'path': '/verif/gilint', 'serves_properties': sorted(CLAIMED),
-                     'kind_free_text': 'repository-specific static analysis: Python ast + constant folder + guard chains/CFG (E-py), clang-14 JSON AST over stub GLib headers (E-c), regex automata (E-rx), in-repo tables (rst / rnc)'}],
+                     'kind_free_text': 'repository-specific static analysis: gated effect summaries for Python and C (gsa/cgsa), string-shape fragments (strfrag), Python ast + constant folder + guard chains/CFG (E-py), clang-14 JSON AST over stub GLib headers (E-c), regex automata (E-rx), in-repo tables (rst / rnc)'}],
         'checks': checks,
         'not_applicable': na,
         'notes': 'Exit codes: 0 held, 1 VIOLATION, 2 ANALYSIS-ERROR (anchor vanished / unrecognised shape / instance floor not met). known_findings.json lists genuine defects (known/fixed).',
